@@ -15,6 +15,44 @@ fn words(r: &mut Rng) -> Vec<usize> {
     ws
 }
 
+/// base workload with the operations only the real code runs: index compaction and an index
+/// created / removed in the open callback (many adds so that the small index buckets overflow)
+pub fn gen_base_ext(r: &mut Rng, max_ops: usize) -> Vec<Line> {
+    let mut base = gen_base(r, max_ops);
+    let mut body = 500u64;
+    // front-load documents so buckets split
+    let n_pre = 4 + r.usize(6);
+    let mut pre = vec![];
+    for _ in 0..n_pre {
+        body += 1;
+        pre.push(Line::Add(DocC { body, a: r.below(KEYS_A), ws: words(r) }));
+    }
+    pre.extend(base.drain(..));
+    let mut out = vec![];
+    let mut rc = 0u64;
+    for l in &pre {
+        if let Line::Reopen(n) | Line::Close(n) = l {
+            rc = rc.max(*n);
+        }
+    }
+    let mut want = false;
+    for l in pre {
+        out.push(l);
+        match r.below(100) {
+            0..=9 => out.push(Line::Compact(r.below(2))),
+            10..=15 => {
+                want = !want;
+                out.push(Line::WantIx(want));
+                // renumber: wall-clock stand-ins only matter for the model, which does not run here
+                rc += 1;
+                out.push(Line::Reopen(rc));
+            }
+            _ => {}
+        }
+    }
+    out
+}
+
 pub fn gen_base(r: &mut Rng, max_ops: usize) -> Vec<Line> {
     let n = 4 + r.usize(max_ops.saturating_sub(3).max(1));
     let mut out = vec![];
@@ -61,11 +99,13 @@ pub fn gen_base(r: &mut Rng, max_ops: usize) -> Vec<Line> {
             let id = if r.chance(5, 6) && !live.is_empty() { *live.keys().nth(r.usize(live.len())).unwrap() } else { 1 + r.below(next_id + 1) };
             live.remove(&id);
             out.push(Line::Remove(id));
-        } else if pick < 90 {
+        } else if pick < 77 {
+            out.push(Line::SaveExt(body));
+        } else if pick < 91 {
             fl += 1;
             flushed = true;
             out.push(Line::Flush(fl));
-        } else if pick < 95 {
+        } else if pick < 96 {
             rc += 1;
             out.push(Line::Reopen(rc));
         } else {
